@@ -133,6 +133,26 @@ func (l *ExpandedLexer) nextToken() Token {
 		tok.Type = STAR
 		tok.Literal = string(l.ch)
 		l.readChar()
+	// Expansion replaces these symbols by keywords only where they start a
+	// line. Anywhere else (`a % b`, `@minLen(2)` on a field, `{ $ y = 1 }` on
+	// one line) they stay in the expanded text and are the same tokens as in
+	// compact source.
+	case '@':
+		tok.Type = AT
+		tok.Literal = string(l.ch)
+		l.readChar()
+	case '$':
+		tok.Type = DOLLAR
+		tok.Literal = string(l.ch)
+		l.readChar()
+	case '%':
+		tok.Type = PERCENT
+		tok.Literal = string(l.ch)
+		l.readChar()
+	case '~':
+		tok.Type = TILDE
+		tok.Literal = string(l.ch)
+		l.readChar()
 	case '/':
 		nextChar := l.peekChar()
 		isPathContext := l.lastTokenLiteral == "route" || !l.lastTokenWasValue
